@@ -5,10 +5,10 @@ from props import rt_common as R
 ID = "C10"; MODEL = "rt"; IMPL = "rt"
 COQ_PROP = "Properties/C10.v"; COQ_DIRS = ["Common", "CQueue", "Runtime"]
 COQ_MODULE = "Runtime.ModelCq"; RUN_FN = "run"
-THEOREMS = ["C10_stepped_log_eq_run_log", "C10_stepped_block_eq_run_block", "C10_step_ignores_configured_limit", "C10_n_step_exact", "C10_until_step_exact", "C10_paused_state", "C10_paused_add_ok_iff", "C10_run_over_cqueue_eq_run_over_spec", "C10_stepped_log_eq_run_log_cq", "C10_stepped_block_eq_run_block_cq", "C10_paused_cq"]
+THEOREMS = ["C10_stepped_log_eq_run_log", "C10_stepped_block_eq_run_block", "C10_step_ignores_configured_limit", "C10_n_step_exact", "C10_until_step_exact", "C10_paused_state", "C10_paused_add_ok_iff", "C10_run_over_cqueue_eq_run_over_spec", "C10_stepped_log_eq_run_log_cq", "C10_stepped_block_eq_run_block_cq", "C10_paused_cq", "C10_any_event_set_stepped_log_eq_run_log", "C10_any_event_set_stepped_block_eq_run_block", "C10_any_event_set_step_ignores_configured_limit", "C10_any_event_set_paused", "C10_stepped_log_eq_run_log_over_spec_event_set", "C10_stepped_log_eq_run_log_over_calendar_queue_event_set", "C10_stepped_log_eq_run_log_heap", "C10_stepped_block_eq_run_block_heap", "C10_step_ignores_configured_limit_heap", "C10_paused_heap"]
 QUICK_N = 2500; THOROUGH_N = 150000
 CLAIM = dict(
-    text="Machine-checked (Coq 8.16, axiom-free) for every scripted event program and every schedule of dispatch_n_events / dispatch_events_until steps (cuts inside groups of equal timestamps included) on a runtime built without a limit: the schedule followed by dispatch_all ends in exactly the state of the uninterrupted dispatch_all (same events, order, times, pending set, clock, counters), hence finish returns the same result; in every paused state (any configured limit, any schedule incl. add_event between steps): dispatch_n_events(k) dispatches exactly the next k events of the remaining run or all of them, dispatch_events_until(T) exactly those with timestamp <= T, sim_time is the time of the last dispatched event, num_events_remaining the number of undelivered events (= scheduled - handled as a multiset), add_event(t) is accepted iff t >= sim_time and a rejected call changes nothing; the step functions ignore the configured limit (swap lemma). Stated for the code after fix: commit f4552a6 (limit decided on peek_time); Refuted/C10.v proves the pinned fetch-and-put-back violates the statements (F7, F8). Tied to des::runtime by differential runs (extracted model vs real Runtime over the real CQueue, stepped and uninterrupted run of the same program per script) and an independent monitor on the implementation's outputs. COMPOSITION: Runtime/ModelCq.v is the same runtime threading the concrete calendar-queue state (cq_new_at n t start, add, peek_time, fetch_next, len, where the cqueue-backed FutureEventSet calls them); Runtime/Compose.v proves by forward simulation (queue part: C01's refinement relation) that for all n,t>=1 it prints exactly what the model over the specification prints (run_over_cqueue_eq_run_over_spec), and the headline statements are restated and proved for the runtime over the calendar queue for every queue parameterisation (*_cq theorems); the extracted runner executes this composed model with the script's (n,t).",
+    text="Machine-checked (Coq 8.16, axiom-free) for every scripted event program and every schedule of dispatch_n_events / dispatch_events_until steps (cuts inside groups of equal timestamps included) on a runtime built without a limit: the schedule followed by dispatch_all ends in exactly the state of the uninterrupted dispatch_all (same events, order, times, pending set, clock, counters), hence finish returns the same result; in every paused state (any configured limit, any schedule incl. add_event between steps): dispatch_n_events(k) dispatches exactly the next k events of the remaining run or all of them, dispatch_events_until(T) exactly those with timestamp <= T, sim_time is the time of the last dispatched event, num_events_remaining the number of undelivered events (= scheduled - handled as a multiset), add_event(t) is accepted iff t >= sim_time and a rejected call changes nothing; the step functions ignore the configured limit (swap lemma). Stated for the code after fix: commit f4552a6 (limit decided on peek_time); Refuted/C10.v proves the pinned fetch-and-put-back violates the statements (F7, F8). Tied to des::runtime by differential runs (extracted model vs real Runtime over the real CQueue, stepped and uninterrupted run of the same program per script) and an independent monitor on the implementation's outputs. COMPOSITION: Runtime/ModelCq.v is the same runtime threading the concrete calendar-queue state (cq_new_at n t start, add, peek_time, fetch_next, len, where the cqueue-backed FutureEventSet calls them); Runtime/Compose.v proves by forward simulation (queue part: C01's refinement relation) that for all n,t>=1 it prints exactly what the model over the specification prints (run_over_cqueue_eq_run_over_spec), and the headline statements are restated and proved for the runtime over the calendar queue for every queue parameterisation (*_cq theorems); the extracted runner executes this composed model with the script's (n,t). GENERIC LEVEL: every statement is also proved for the runtime over ANY future event set satisfying an explicit interface (Runtime/EvSet.v: new/add/peek_time/fetch_next/len with six facts, peek purity by type), with an oracle for backends whose order among equal timestamps is unspecified (C1x_any_event_set_* theorems), and instantiated for the specification, the calendar queue (every n,t>=1) and the BinaryHeap backend of a des built without `cqueue` (every oracle; *_heap theorems; that backend is exercised by `check.py C01 --part heap`).",
     note="Scope: 'same as an uninterrupted run' is stated for limit-free runtimes because steps swap the configured limit out (DESIGN 6/C10); with externally added events between steps only the per-step and paused-state clauses apply. Trusted: Coq kernel; extraction cross-checked in-Coq each run; harness/generators; event set = C01's specification, composed with the calendar-queue model in Coq (Runtime/Compose.v); scripted handlers; overflow out of scope.",
     technique="Coq proof (determinism of the limit-free completion + forward/backward simulation of limited runs along it) + invariant + differential correspondence check",
     design="6/C10")
